@@ -2,6 +2,7 @@ package interp
 
 import (
 	"fmt"
+	"os"
 	"go/types"
 	"sort"
 	"strings"
@@ -193,6 +194,11 @@ func init() {
 	reg("CrashImage", func(in *Interp, fr *frame, a []Value, c *ssa.CallCommon) Value {
 		fs := in.fs
 		n := len(fs.winLog)
+		if os.Getenv("SYMGO_DEBUG_CRASH") != "" && in.path.pos >= len(in.path.prefix) {
+			for i, mu := range fs.winLog {
+				fmt.Printf("crashlog %d kind=%d ino=%d path=%s path2=%s off=%d len=%d size=%d\n", i, mu.kind, mu.ino, mu.path, mu.path2, mu.off, len(mu.data), mu.size)
+			}
+		}
 		k := in.choose(n+1, "crash-k")
 		in.path.nondets = append(in.path.nondets, nondetRec{Label: "crash-k", Kind: "choose", Conc: k})
 		t := 0
@@ -200,6 +206,26 @@ func init() {
 			t = in.choose(len(fs.winLog[k].data), "crash-t")
 		}
 		in.path.nondets = append(in.path.nondets, nondetRec{Label: "crash-t", Kind: "choose", Conc: t})
+		kinds := []string{"create", "truncate", "write", "rename", "remove", "mkdir", "removeall"}
+		desc := func(i int) string {
+			if i < 0 || i >= n {
+				return "end-of-window"
+			}
+			mu := fs.winLog[i]
+			p := mu.path
+			if p == "" {
+				for name, ino := range fs.files {
+					if ino.id == mu.ino {
+						p = name
+					}
+				}
+			}
+			if j := strings.LastIndex(p, "/"); j >= 0 {
+				p = p[j+1:]
+			}
+			return kinds[mu.kind] + ":" + p
+		}
+		in.path.notes = append(in.path.notes, fmt.Sprintf("crash after %s before %s (t=%d)", desc(k-1), desc(k), t))
 		return Str{S: in.crashImage(k, t)}
 	})
 	reg("OpenFiles", func(in *Interp, fr *frame, a []Value, c *ssa.CallCommon) Value {
